@@ -93,4 +93,15 @@ PROPS = {
             "equality of whole transcripts follows from equality of the primitives because process_message uses the store only through them; the lifted statement (processMessage_congr) is validated by the four-backend correspondence check, not yet a theorem",
         ],
     },
+    "C03": {
+        "lean_modules": ["DocsModel.Props.C03"],
+        "trusted_base": COMMON_TRUST + [
+            "Ed25519 (iroh::PublicKey::verify = verify_strict) is not modelled: whether a signature verifies is a field of the model's entry; in the harness the ground truth is by construction (which key signed which bytes), never the crate's verify",
+            "hook H1 (clock at the exact future-bound boundary), H2c (subscriber to observe announcements)",
+        ],
+        "assumptions": [
+            "unforgeability of Ed25519 is not claimed: 'authentic' means the signatures verify over exactly the entry's canonical bytes",
+            "now + 600 s does not overflow 64 bits",
+        ],
+    },
 }
